@@ -15,8 +15,14 @@ claims={
  "C17":("GUID conversions decided for all 2^128 values in one symbolic run (Format, both parse directions, byte forms, in-structure layout, equality).","2 C17"),
  "C18":("Boot-order decoding decided for all 65 536 values of every entry symbolically: names are Boot + four upper-case hex digits.","2 C18"),
  "C19":("Read-only operations on a parsed symbolic image, a database and a signed-update value are called twice in both orders: results are equal on every path, and the executor's write log shows no store into the pre-existing object graph (sufficient condition for race-free concurrent use).","2 C19"),
+ "C11":("Variable write/read through the object API against a recording file system: the complete operation trace (path with canonical lower-case GUID for all 2^128 GUIDs, flags, single write of attrs||value) and the attribute-checked read are decided for symbolic names, masks and values.","2 C11"),
+ "C12":("Inductive step on the real in-memory store (afero.MemMapFs interpreted): after an arbitrary previous value, a plain write of any shorter/equal/longer value is what the next read returns; other variables unchanged.","2 C12"),
+ "C15":("Symbolic fault injection in the file-system dependency: every failing or short step of variable write and read surfaces as an error; all fault positions explored by forking.","2 C15"),
 }
 partial={
+ "C11":" The legacy package-level API is not covered.",
+ "C12":" Signed updates are not yet covered.",
+ "C15":" Signer and image-reader failures and signed updates are not yet covered.",
  "C19":" Real goroutine schedules are not explored; Verify is not included.",
  "C03":" Re-parse digest equality, embedded-digest and verify-after-sign parts of the statement are not decided by this check.",
  "C01":" The per-position flip statement is covered only through equality with the specification's stream.",
